@@ -74,10 +74,15 @@ var DefinedPrivs = func() []int {
 
 type Access [8]byte
 
-func (a *Access) Set(i int)      { a[i/8] |= 0x80 >> uint(i%8) }
-func (a *Access) Clear(i int)    { a[i/8] &^= 0x80 >> uint(i%8) }
-func (a Access) Has(i int) bool  { return a[i/8]&(0x80>>uint(i%8)) != 0 }
-func AllAccess() (a Access)      { for i := range a { a[i] = 0xff }; return }
+func (a *Access) Set(i int)     { a[i/8] |= 0x80 >> uint(i%8) }
+func (a *Access) Clear(i int)   { a[i/8] &^= 0x80 >> uint(i%8) }
+func (a Access) Has(i int) bool { return a[i/8]&(0x80>>uint(i%8)) != 0 }
+func AllAccess() (a Access) {
+	for i := range a {
+		a[i] = 0xff
+	}
+	return
+}
 func AccessOf(bits ...int) (a Access) {
 	for _, b := range bits {
 		a.Set(b)
@@ -97,121 +102,121 @@ func (a Access) Defined() (o Access) {
 
 // Transaction types.
 const (
-	TranError = 0
-	TranGetMsgs = 101
-	TranNewMsg = 102
-	TranOldPostNews = 103
-	TranServerMsg = 104
-	TranChatSend = 105
-	TranChatMsg = 106
-	TranLogin = 107
-	TranSendInstantMsg = 108
-	TranShowAgreement = 109
-	TranDisconnectUser = 110
-	TranDisconnectMsg = 111
-	TranInviteNewChat = 112
-	TranInviteToChat = 113
-	TranRejectChatInvite = 114
-	TranJoinChat = 115
-	TranLeaveChat = 116
+	TranError                = 0
+	TranGetMsgs              = 101
+	TranNewMsg               = 102
+	TranOldPostNews          = 103
+	TranServerMsg            = 104
+	TranChatSend             = 105
+	TranChatMsg              = 106
+	TranLogin                = 107
+	TranSendInstantMsg       = 108
+	TranShowAgreement        = 109
+	TranDisconnectUser       = 110
+	TranDisconnectMsg        = 111
+	TranInviteNewChat        = 112
+	TranInviteToChat         = 113
+	TranRejectChatInvite     = 114
+	TranJoinChat             = 115
+	TranLeaveChat            = 116
 	TranNotifyChatChangeUser = 117
 	TranNotifyChatDeleteUser = 118
-	TranNotifyChatSubject = 119
-	TranSetChatSubject = 120
-	TranAgreed = 121
-	TranServerBanner = 122
-	TranGetFileNameList = 200
-	TranDownloadFile = 202
-	TranUploadFile = 203
-	TranDeleteFile = 204
-	TranNewFolder = 205
-	TranGetFileInfo = 206
-	TranSetFileInfo = 207
-	TranMoveFile = 208
-	TranMakeFileAlias = 209
-	TranDownloadFldr = 210
-	TranDownloadInfo = 211
-	TranDownloadBanner = 212
-	TranUploadFldr = 213
-	TranGetUserNameList = 300
-	TranNotifyChangeUser = 301
-	TranNotifyDeleteUser = 302
-	TranGetClientInfoText = 303
-	TranSetClientUserInfo = 304
-	TranListUsers = 348
-	TranUpdateUser = 349
-	TranNewUser = 350
-	TranDeleteUser = 351
-	TranGetUser = 352
-	TranSetUser = 353
-	TranUserAccess = 354
-	TranUserBroadcast = 355
-	TranGetNewsCatNameList = 370
-	TranGetNewsArtNameList = 371
-	TranDelNewsItem = 380
-	TranNewNewsFldr = 381
-	TranNewNewsCat = 382
-	TranGetNewsArtData = 400
-	TranPostNewsArt = 410
-	TranDelNewsArt = 411
-	TranKeepAlive = 500
+	TranNotifyChatSubject    = 119
+	TranSetChatSubject       = 120
+	TranAgreed               = 121
+	TranServerBanner         = 122
+	TranGetFileNameList      = 200
+	TranDownloadFile         = 202
+	TranUploadFile           = 203
+	TranDeleteFile           = 204
+	TranNewFolder            = 205
+	TranGetFileInfo          = 206
+	TranSetFileInfo          = 207
+	TranMoveFile             = 208
+	TranMakeFileAlias        = 209
+	TranDownloadFldr         = 210
+	TranDownloadInfo         = 211
+	TranDownloadBanner       = 212
+	TranUploadFldr           = 213
+	TranGetUserNameList      = 300
+	TranNotifyChangeUser     = 301
+	TranNotifyDeleteUser     = 302
+	TranGetClientInfoText    = 303
+	TranSetClientUserInfo    = 304
+	TranListUsers            = 348
+	TranUpdateUser           = 349
+	TranNewUser              = 350
+	TranDeleteUser           = 351
+	TranGetUser              = 352
+	TranSetUser              = 353
+	TranUserAccess           = 354
+	TranUserBroadcast        = 355
+	TranGetNewsCatNameList   = 370
+	TranGetNewsArtNameList   = 371
+	TranDelNewsItem          = 380
+	TranNewNewsFldr          = 381
+	TranNewNewsCat           = 382
+	TranGetNewsArtData       = 400
+	TranPostNewsArt          = 410
+	TranDelNewsArt           = 411
+	TranKeepAlive            = 500
 )
 
 // Field ids.
 const (
-	FError = 100
-	FData = 101
-	FUserName = 102
-	FUserID = 103
-	FUserIconID = 104
-	FUserLogin = 105
-	FUserPassword = 106
-	FRefNum = 107
-	FTransferSize = 108
-	FChatOptions = 109
-	FUserAccess = 110
-	FUserFlags = 112
-	FOptions = 113
-	FChatID = 114
-	FChatSubject = 115
-	FWaitingCount = 116
-	FBannerType = 152
-	FNoServerAgreement = 152
-	FVersion = 160
-	FCommunityBannerID = 161
-	FServerName = 162
-	FFileNameWithInfo = 200
-	FFileName = 201
-	FFilePath = 202
-	FFileResumeData = 203
+	FError               = 100
+	FData                = 101
+	FUserName            = 102
+	FUserID              = 103
+	FUserIconID          = 104
+	FUserLogin           = 105
+	FUserPassword        = 106
+	FRefNum              = 107
+	FTransferSize        = 108
+	FChatOptions         = 109
+	FUserAccess          = 110
+	FUserFlags           = 112
+	FOptions             = 113
+	FChatID              = 114
+	FChatSubject         = 115
+	FWaitingCount        = 116
+	FBannerType          = 152
+	FNoServerAgreement   = 152
+	FVersion             = 160
+	FCommunityBannerID   = 161
+	FServerName          = 162
+	FFileNameWithInfo    = 200
+	FFileName            = 201
+	FFilePath            = 202
+	FFileResumeData      = 203
 	FFileTransferOptions = 204
-	FFileTypeString = 205
-	FFileCreatorString = 206
-	FFileSize = 207
-	FFileCreateDate = 208
-	FFileModifyDate = 209
-	FFileComment = 210
-	FFileNewName = 211
-	FFileNewPath = 212
-	FFileType = 213
-	FQuotingMsg = 214
-	FAutomaticResponse = 215
-	FFolderItemCount = 220
-	FUsernameWithInfo = 300
-	FNewsArtListData = 321
-	FNewsCatName = 322
-	FNewsCatListData15 = 323
-	FNewsPath = 325
-	FNewsArtID = 326
-	FNewsArtDataFlav = 327
-	FNewsArtTitle = 328
-	FNewsArtPoster = 329
-	FNewsArtDate = 330
-	FNewsArtPrevArt = 331
-	FNewsArtNextArt = 332
-	FNewsArtData = 333
-	FNewsArtFlags = 334
-	FNewsArtParentArt = 335
-	FNewsArt1stChildArt = 336
-	FNewsArtRecurseDel = 337
+	FFileTypeString      = 205
+	FFileCreatorString   = 206
+	FFileSize            = 207
+	FFileCreateDate      = 208
+	FFileModifyDate      = 209
+	FFileComment         = 210
+	FFileNewName         = 211
+	FFileNewPath         = 212
+	FFileType            = 213
+	FQuotingMsg          = 214
+	FAutomaticResponse   = 215
+	FFolderItemCount     = 220
+	FUsernameWithInfo    = 300
+	FNewsArtListData     = 321
+	FNewsCatName         = 322
+	FNewsCatListData15   = 323
+	FNewsPath            = 325
+	FNewsArtID           = 326
+	FNewsArtDataFlav     = 327
+	FNewsArtTitle        = 328
+	FNewsArtPoster       = 329
+	FNewsArtDate         = 330
+	FNewsArtPrevArt      = 331
+	FNewsArtNextArt      = 332
+	FNewsArtData         = 333
+	FNewsArtFlags        = 334
+	FNewsArtParentArt    = 335
+	FNewsArt1stChildArt  = 336
+	FNewsArtRecurseDel   = 337
 )
